@@ -9,6 +9,7 @@ __all__ = [
 ]
 
 import logging
+import struct
 from collections.abc import Sequence
 
 import onnx_ir as ir
@@ -76,12 +77,16 @@ class CommonSubexpressionEliminationPass(ir.passes.InPlacePass):
                 # The attribute value could be directly taken from the original
                 # protobuf, so we need to make a copy of it.
                 value = v.value
-                if v.type in (
+                if v.type is ir.AttributeType.FLOAT:
+                    # Compare floats by their bits: 0.0 == -0.0 but they are different values
+                    value = struct.pack("<d", value)
+                elif v.type is ir.AttributeType.FLOATS:
+                    value = struct.pack(f"<{len(value)}d", *value)
+                elif v.type in (
                     ir.AttributeType.INTS,
-                    ir.AttributeType.FLOATS,
                     ir.AttributeType.STRINGS,
                 ):
-                    # For INT, FLOAT and STRING attributes, we convert them to tuples
+                    # For INT and STRING attributes, we convert them to tuples
                     # to ensure they are hashable.
                     value = tuple(value)
                 elif v.type is ir.AttributeType.TENSOR:
